@@ -22,7 +22,7 @@ ASSUMPTIONS = ['copy(), flatten()/ravel(), T and fxp_like are documented shallow
 EXHAUSTIVE = False    # the whole quantifier is not enumerated; complete sub-domains are listed in EXHAUSTIVE_SUBDOMAINS
 EXHAUSTIVE_SUBDOMAINS = {'quick': ['invalid values for every validated Config option x 4 setting routes'], 'thorough': ['same']}
 REQUIRED_CLASSES = {'history:mutation-after-2-derivations': 100, 'derive:like_kw': 50, 'derive:arith': 100, 'derive:numpy': 50, 'derive:like': 50, 'mutate:config': 100, 'mutate:readback-array': 100,
-                    'mutate:flag': 100, 'view-write': 200, 'container:strings': 300, 'container:strings-value-mode': 150, 'config-invalid': 40}
+                    'mutate:flag': 100, 'view-write': 200, 'view-write:col': 15, 'view-write:step': 15, 'view-write:rev': 15, 'container:strings': 300, 'container:strings-value-mode': 150, 'config-invalid': 40}
 
 
 class Dummy:
@@ -263,40 +263,62 @@ def check_history(ctx, case):
     return run_history(ctx, World, case)
 
 
+VIEW_SELS = ['row', 'col', 'step', 'rev', 'revcol', 'tail', 'stepcol', 'rowslice']
+
+
+def _view_sel(name, i, j, shape):
+    """A basic (view-producing) first index of a 2-d object."""
+    r, c = shape
+    return {'row': i % r, 'col': (slice(None), j % c), 'step': slice(None, None, 2), 'rev': slice(None, None, -1),
+            'revcol': (slice(None), slice(None, None, -1)), 'tail': slice(min(1, r - 1), None), 'stepcol': (slice(None), slice(None, None, 2)),
+            'rowslice': (i % r, slice(None, None, -1))}[name]
+
+
 def check_view(ctx, case):
-    """x[i][j] = v writes through to x and nothing else changes."""
+    """x[sel][idx] = v writes through to x (sel: any basic index - a row, a column, a stepped / reversed / offset slice) and nothing else
+    changes.  Reference for *where* the write lands: the same chained assignment on a numpy array of the codes."""
     fmt = tuple(case['fmt'])
     s, w, f = fmt
     r, c = case['shape']
     i, j = case['i'] % r, case['j'] % c
+    selname = case.get('sel', 'row')
     F = C.Fxp()
     ctx.ev()
     ctx.cls('view-write')
+    ctx.cls('view-write:' + selname)
     lo, hi = M.rng(s, w)
     k_new = int(case['k'])
-    sig = 'view/%s' % ('wide' if w >= 64 else 'core')
+    sig = 'view/%s/%s' % ('wide' if w >= 64 else 'core', selname)
+    sel = _view_sel(selname, i, j, (r, c))
+    model = np.array([int(k) for k in case['codes']], dtype=object).reshape(r, c)
+    sub = model[sel]
+    idx2 = tuple(int(a) % n for a, n in zip((case.get('a', j), case.get('b', i)), sub.shape))
+    if selname == 'row':
+        idx2 = (j,)
+    sub[idx2] = k_new                       # numpy: basic indexing returns a view, the write lands in `model`
+    want = [[int(v) for v in rw] for rw in model.tolist()]
+    idx2 = idx2[0] if len(idx2) == 1 else idx2
 
     def do():
         base = np.array([int(k) for k in case['codes']], dtype=object if w > 62 else np.int64).reshape(r, c)
         x = F(base, s, w, f, raw=True)
         before = C.codes(x)
         if w >= 64 or case.get('raw'):
-            x[i].set_val(k_new, raw=True, index=j)
+            x[sel].set_val(k_new, raw=True, index=idx2)
         else:
-            x[i][j] = float(M.value_of(k_new, f))
-        row = x[i]
-        return x, before, C.codes(x), C.codes(row)
+            x[sel][idx2] = float(M.value_of(k_new, f))
+        kept = x[sel]
+        return x, before, C.codes(x), C.codes(kept)
     ok, res = ctx.guard(case, do, sig_prefix=sig + '/')
     if not ok:
         return
-    x, before, after, row = res
-    want = [list(rw) for rw in before]
-    want[i][j] = k_new
+    x, before, after, kept = res
     if after != want:
-        ctx.fail(sig + '/write-through', case, {'expected': str(want), 'got': str(after)})
+        ctx.fail(sig + '/write-through', case, {'expected': str(want), 'got': str(after), 'sel': str(sel), 'idx': str(idx2)})
         return
-    if row != want[i]:
-        ctx.fail(sig + '/view-content', case, {'row': str(row)})
+    want_kept = model[sel].tolist()
+    if kept != want_kept:
+        ctx.fail(sig + '/view-content', case, {'view': str(kept), 'expected': str(want_kept)})
 
 
 def build_container(kind, elems):
@@ -509,11 +531,11 @@ def st_view(draw):
         fmt = (s, w, draw(st.sampled_from([0, w // 2])))
     else:
         fmt = draw(C.st_fmt(max_w=32, f_lo=0, f_hi_extra=0))
-    r, c = draw(st.sampled_from([(2, 2), (2, 3), (3, 2), (1, 3)]))
+    r, c = draw(st.sampled_from([(2, 2), (2, 3), (3, 2), (1, 3), (4, 3), (3, 4)]))
     lo, hi = M.rng(fmt[0], fmt[1])
     code = st.one_of(st.sampled_from([lo, hi, 0]), st.integers(lo, hi))
     return {'check': 'view', 'fmt': list(fmt), 'shape': [r, c], 'codes': [draw(code) for _ in range(r * c)], 'i': draw(IDX), 'j': draw(IDX),
-            'k': draw(code), 'raw': draw(st.booleans())}
+            'k': draw(code), 'raw': draw(st.booleans()), 'sel': draw(st.sampled_from(VIEW_SELS)), 'a': draw(IDX), 'b': draw(IDX)}
 
 
 def body_view(ctx, case):
